@@ -8,12 +8,19 @@ open Router
 let hs_of (x : Sx.t) = List.map (fun i -> nat_of_int (Sx.int_of i)) (Sx.args x)
 let atom_str (a : Sx.t) = List.map (fun c -> n_of_int (Char.code c)) (List.init (String.length (Sx.atom a)) (String.get (Sx.atom a)))
 
+(* a trailing (hdr 1): .Headers("X-Gate", "") is called on what the statement returns *)
+let split_hdr (l : Sx.t list) : Sx.t list * bool =
+  match List.rev l with
+  | (Sx.L [Sx.A "hdr"; b]) :: r -> (List.rev r, bool_of b)
+  | _ -> (l, false)
+
 let rec stmt_of (x : Sx.t) : stmt =
-  match Sx.tag x, Sx.args x with
-  | "route", [m; p; hs] -> SRoute (atom_str m, str p, hs_of hs)
-  | "get", [p; hs] -> SGet (str p, hs_of hs)
-  | "routes", [p; ms; extra; hs] -> SRoutes (str p, str ms, List.map str (Sx.args extra), hs_of hs)
-  | "any", [p; hs] -> SAny (str p, hs_of hs)
+  let (a, hdr) = split_hdr (Sx.args x) in
+  match Sx.tag x, a with
+  | "route", [m; p; hs] -> SRoute (atom_str m, str p, hs_of hs, hdr)
+  | "get", [p; hs] -> SGet (str p, hs_of hs, hdr)
+  | "routes", [p; ms; extra; hs] -> SRoutes (str p, str ms, List.map str (Sx.args extra), hs_of hs, hdr)
+  | "any", [p; hs] -> SAny (str p, hs_of hs, hdr)
   | "group", [p; hs; body] -> SGroup (str p, hs_of hs, List.map stmt_of (Sx.args body))
   | "combo", p :: hs :: uses -> SCombo (str p, hs_of hs, List.map (fun u -> match Sx.args u with [m; h] -> (atom_str m, hs_of h) | _ -> failwith "use") uses)
   | "autohead", [b] -> SAutoHead (bool_of b)
@@ -35,8 +42,11 @@ let methods_idx (m : coq_N list) : Datatypes.nat list =
   if name = "*" then List.init 9 nat_of_int
   else match G_router.method_index name with Some i -> [nat_of_int i] | None -> []
 
-let predict (regs : freg list option) (probes : Sx.t list) : Sx.t list =
-  match regs with
+let gate_name = List.map (fun c -> n_of_int (Char.code c)) (List.init 6 (String.get "X-Gate"))
+let gate_val = List.map (fun c -> n_of_int (Char.code c)) (List.init 2 (String.get "on"))
+
+let predict (wrap : bool) (regs : freg list option) (probes : Sx.t list) : Sx.t list =
+  match checked regs with
   | None -> [Sx.L [Sx.A "regs"; Sx.L [Sx.A "panic"]]]
   | Some regs ->
       let compile _ = None in
@@ -45,19 +55,22 @@ let predict (regs : freg list option) (probes : Sx.t list) : Sx.t list =
         if !ok then match methods_idx r.fr_method with
           | [] -> ok := false                        (* unknown HTTP method: the registration panics *)
           | ms -> (match register compile !st ms (route_of_path r.fr_path) with
-                   | Some st' -> st := st'
+                   | Some st' ->
+                       let rid = Stdlib.List.length (!st).infos in
+                       st := if r.fr_hdr then set_headers st' (nat_of_int rid) [(gate_name, Regex.Eps)] else st'
                    | None -> ok := false)) regs;
       if not !ok then [Sx.L [Sx.A "regs"; Sx.L [Sx.A "panic"]]]
       else
         let res = List.map (fun pr -> match Sx.args pr with
-          | [m; path] ->
+          | m :: path :: gate ->
+              let hdrs = if gate = [] then [] else [(gate_name, gate_val)] in
               let mi = (match G_router.method_index (ocaml_string_of_str (str m)) with Some i -> Some (nat_of_int i) | None -> None) in
-              (match serve !st mi (str path) [] with
+              (match serve !st mi (str path) hdrs with
                | NotFound -> Sx.L [Sx.A "notfound"]
                | Found (rid, ps) ->
                    let r = List.nth regs (int_of_nat rid) in
                    let ps = (G_router.s_route, render_route (route_of_path r.fr_path)) :: ps in
-                   Sx.L [Sx.A "r"; Sx.L (Sx.A "hs" :: List.map (fun h -> sx_int (int_of_nat h)) r.fr_hs);
+                   Sx.L [Sx.A "r"; Sx.L (Sx.A "hs" :: List.map (fun h -> sx_int (int_of_nat h)) (run_trace wrap r));
                          Sx.L (Sx.A "params" :: G_router.sx_params ps)])
           | _ -> failwith "probe") probes in
         [Sx.L [Sx.A "regs"; Sx.L [Sx.A "ok"]]; Sx.L (Sx.A "probes" :: res)]
@@ -69,9 +82,10 @@ let rec has_nested_group d = function
 let eval (input : Sx.t) (obs : Sx.t) : Sx.t list * bool * bool * string =
   let prog = List.map stmt_of (Sx.args (Sx.field "prog" input)) in
   let probes = Sx.args (Sx.field "probes" input) in
-  let m = predict (exec prog) probes in
+  let wrap = (match Sx.field_opt "wrap" input with Some w -> bool_of (List.hd (Sx.args w)) | None -> false) in
+  let m = predict wrap (exec prog) probes in
   (* the property: the implementation behaves like the FLAT expansion *)
-  let flat = predict (flatten prog) probes in
+  let flat = predict wrap (flatten prog) probes in
   let spec = (flat = Sx.args obs) in
   let nested = List.exists (has_nested_group 0) prog in
   let cls = (if nested then "nested-groups" else "flat-or-single") ^ (if exec prog = None then ",refused" else "") in
